@@ -304,32 +304,69 @@ func runC10(p *core.Program, r *core.Report) {
 		if src == nil || usesMapRange {
 			r.Bad("R6", f, "map literal entries are emitted in a fixed order", ma.Pos(), "the map arm does not collect rv.MapKeys() into a key list that is sorted before emitting")
 		} else {
-			sh := rangeBodyShape(info, src)
-			ok := sh.KeyedOnly && len(sh.Collected) >= 1
-			why := "the loop over rv.MapKeys() does more than collecting keys / keyed stores: " + strings.Join(sh.Other, "; ")
-			if ok {
-				for _, x := range sh.Collected {
-					if good, w := sortedBeforeUse(f, src, x); !good {
-						ok, why = false, w
+			// every loop over the unordered key list only collects / stores by key
+			ok, why := true, ""
+			ast.Inspect(ma, func(n ast.Node) bool {
+				rs, isR := n.(*ast.RangeStmt)
+				if !isR {
+					return true
+				}
+				if c, isCall := ast.Unparen(rs.X).(*ast.CallExpr); isCall && core.CalleeName(info, c) == "(reflect.Value).MapKeys" {
+					if sh := rangeBodyShape(info, rs); !sh.KeyedOnly || len(sh.Collected) < 1 {
+						ok, why = false, "the loop over rv.MapKeys() does more than collecting keys / keyed stores: "+strings.Join(sh.Other, "; ")
 					}
 				}
-				// the emitting loop ranges over the sorted key list
-				emit := false
-				ast.Inspect(ma, func(n ast.Node) bool {
-					if rs, isR := n.(*ast.RangeStmt); isR && rs != src {
-						for _, x := range sh.Collected {
-							if core.VarOf(info, rs.X) == x {
-								emit = true
+				return true
+			})
+			// the emitting loop - the one that writes the entries - ranges over a list of key literals that was
+			// collected by a loop and put in its natural order before any other use (whatever order it was collected in)
+			emit := false
+			ast.Inspect(ma, func(n ast.Node) bool {
+				rs, isR := n.(*ast.RangeStmt)
+				if !isR || !ok {
+					return true
+				}
+				writes := false
+				for _, c := range core.Calls(rs.Body, true) {
+					if _, _, isW := writeTemplate(info, c); isW {
+						writes = true
+					}
+				}
+				if !writes {
+					return true
+				}
+				x := core.VarOf(info, rs.X)
+				if x == nil {
+					ok, why = false, "entries are written by a loop that does not range over a key list"
+					return true
+				}
+				// the loop that collects x
+				var coll *ast.RangeStmt
+				ast.Inspect(ma, func(m ast.Node) bool {
+					if cr, isCR := m.(*ast.RangeStmt); isCR && cr != rs {
+						for _, cv := range rangeBodyShape(info, cr).Collected {
+							if cv == x {
+								coll = cr
 							}
 						}
 					}
 					return true
 				})
-				if !emit {
-					ok, why = false, "entries are not emitted by ranging over the sorted key list"
+				if coll == nil {
+					ok, why = false, "the list the entries are emitted from is not collected by a loop of the map arm"
+					return true
 				}
+				if good, w := sortedBeforeUse(f, coll, x); !good {
+					ok, why = false, w
+					return true
+				}
+				emit = true
+				return true
+			})
+			if ok && !emit {
+				ok, why = false, "entries are not emitted by ranging over the sorted key list"
 			}
-			r.Check(ok, "R6", f, "map literal entries are emitted in a fixed order", src.Pos(), "keys are collected, sorted, then emitted (collect-then-sort)", why)
+			r.Check(ok, "R6", f, "map literal entries are emitted in a fixed order", src.Pos(), "key literals are collected, put in their natural order, then emitted (collect-then-sort)", why)
 		}
 	}
 	a5Check(r, "R6", f)
@@ -534,6 +571,10 @@ func c10R7(p *core.Program, r *core.Report, f *core.Func) {
 		construct := "result of the recursive call " + core.ExprStr(c) + " is never an unnoticed empty string"
 		if subValueOff(c) {
 			r.OK(rule, f, construct, c.Pos(), "the call switches the sub-value mode off (SubValue(false)): the callee cannot answer \"\"")
+			continue
+		}
+		if len(c.Args) == 1 && !c.Ellipsis.IsValid() {
+			r.OK(rule, f, construct, c.Pos(), "the call passes no options: the sub-value mode is off by default (zero option struct), the callee cannot answer \"\"")
 			continue
 		}
 		// result assigned to a variable that is compared with ""
